@@ -41,6 +41,17 @@ Theorem edits_never_written : forall max file s, session_wf s ->
 Proof. exact edits_never_written_proof. Qed.
 Print Assumptions edits_never_written.
 
+(* Navigation refines an array of texts with a cursor (HistorySpec.nav): editing changes the text under the
+   cursor, previous/next only move the cursor and never leave [0, |entries|]; so coming back to an entry shows
+   the edited text. The array initially holds the loaded entries, cursor on the scratch line. *)
+Theorem edits_come_back : forall max file ops h f st',
+  new_history file max = Ok (h, f) -> sess_steps (mkSess h [] []) ops = Ok st' ->
+  nav_eq (abs_nav st') (nav_steps (abs_nav (mkSess h [] [])) ops) /\
+  nv_cur (abs_nav (mkSess h [] [])) = length (fs_entries file) /\
+  forall i, (i < length (fs_entries file))%nat -> nv_text (abs_nav (mkSess h [] [])) i = nth i (fs_entries file) [].
+Proof. exact nav_refines_loaded_proof. Qed.
+Print Assumptions edits_come_back.
+
 (* non-vacuity: a concrete two-session history meets the hypotheses and exercises the cap *)
 Example c18_nonvacuous :
   let ss := [mkSession [Edit [97]; Prev; Prev; Next; Edit [98;98]] true; mkSession [Prev; Edit [99]; Next] true] in
